@@ -280,6 +280,9 @@ thread_local! {
 
 /// Install a quiet panic hook that remembers the location of the last panic on this thread.
 pub fn install_quiet_panic_hook() {
+    if std::env::var("BPSIM_LOUD").is_ok() {
+        return;
+    }
     std::panic::set_hook(Box::new(|info| {
         let loc = info
             .location()
@@ -548,3 +551,21 @@ pub fn is_ok(r: &VerifyResult) -> bool {
 pub fn is_err(r: &VerifyResult) -> bool {
     matches!(r, Ok(Err(_)))
 }
+
+// ---- stale-stack seam ------------------------------------------------------------------------
+
+/// Fill the stack region below the caller's frame with a period-32 byte pattern. Whatever the
+/// next call leaves uninitialised in its own frames (padding, payload of a `None`, ...) then has
+/// simulator-chosen content instead of whatever earlier activity of this thread left behind:
+/// one more source of nondeterminism put behind a seam.
+#[inline(never)]
+pub fn paint_stack(pat: &[u8; 32]) {
+    let mut buf = [0u8; 96 * 1024];
+    let base = buf.as_ptr() as usize;
+    for (i, b) in buf.iter_mut().enumerate() {
+        *b = pat[(base + i) % 32];
+    }
+    std::hint::black_box(&mut buf);
+}
+
+pub const NEUTRAL_STACK: [u8; 32] = [0xA5; 32];
